@@ -3,6 +3,7 @@
 # (plus any extra checks listed in seeded/<name>/also.txt), record which rule keys fire, restore the tree. Never commits to /repo.
 # Writes seeded/MATRIX.tsv and fills "detected_by" in each meta.json.
 cd /verif
+export VERIF_EVIDENCE_DIR=$(mktemp -d)  # evidence of runs on deliberately broken trees does not replace /verif/evidence
 names="$*"; [ -z "$names" ] && names=$(ls seeded | grep -v MATRIX)
 : > /tmp/seed_matrix.$$
 for n in $names; do
